@@ -918,7 +918,7 @@ func main() {
 		}
 		// 2. Random scenarios; each gets one or two random kill points.
 		nExhaustive := len(scenarios)
-		for i := 0; i < c.Size(30, 1000); i++ {
+		for i := 0; i < c.Size(30, 400); i++ {
 			s := genScenario(c.R, "trace")
 			s.fault = faults[c.R.Intn(len(faults))]
 			if c.R.Chance(1, 3) {
@@ -957,7 +957,7 @@ func main() {
 		batch(lines)
 
 		// 3. In-process bulk.
-		for i := 0; i < c.Size(12000, 300000); i++ {
+		for i := 0; i < c.Size(12000, 200000); i++ {
 			s := genScenario(c.R, "run")
 			switch c.R.Intn(6) {
 			case 0:
